@@ -7,7 +7,7 @@ from .. import namecorpus, runner, rustgen
 
 def generate(tier, rng):
     derives = ['Display', 'AsRefStr', 'IntoStaticStr', 'VariantNames']
-    enums = namecorpus.build_enums(rng, tier, 'C03', derives, ['names', 'vnames'], generics_pool=('', 'ty', '', 'lt', 'const'),
+    enums = namecorpus.build_enums(rng, tier, 'C03', derives, ['names', 'vnames'], generics_pool=('', 'ty', '', 'lt', 'const', 'ty_nd'),
                                    namings=namecorpus.NAMINGS + namecorpus.TIE_NAMINGS)
     from .. import strcorpus
     soup = strcorpus.build_soup(rng, tier, 'C03', derives=derives, feats=['names', 'vnames'], n=30 if tier == 'quick' else 300,
